@@ -377,4 +377,9 @@ def r08_debug(ctx):
     ctx.floor('R08.6', n, 6)
 
 
-RULES = [('R08.2', r08_writer), ('R08.3', r08_reader), ('R08.5', r08_clip), ('R08.1', r08_vlq), ('R08.4', r08_header), ('R08.6', r08_debug)]
+def r08_induction(ctx):
+    ai = strict_interp(ctx)
+    smf.inductive_agreement(ctx, ai, 'R08.2', 'R08.3')
+
+
+RULES = [('R08-induction', r08_induction), ('R08.2', r08_writer), ('R08.3', r08_reader), ('R08.5', r08_clip), ('R08.1', r08_vlq), ('R08.4', r08_header), ('R08.6', r08_debug)]
